@@ -467,8 +467,47 @@ def _signals_500(fi: FunctionInfo, cfg: CFG, scope: ast.AST) -> list[ast.AST]:
 
 
 # =================================================================================================
+class _Effects:
+    """Which calls certainly write an error batch / certainly raise the 500 signal: the primitive itself, or a resolved
+    callee every normal path of which passes such a call (``_error_response_stream``, ``_exchange_error_response``, ...)."""
+
+    def __init__(self, ctx: Ctx) -> None:
+        self.ctx = ctx
+        self.memo: dict[tuple[str, str], bool] = {}
+
+    @staticmethod
+    def primitive(call: ast.Call, kind: str) -> bool:
+        if kind == "write":
+            return last_attr(call) == "_write_error_batch"
+        return last_attr(call) == "set" and "_current_response_status" in txt(call.func) and bool(call.args) and isinstance(call.args[0], ast.Attribute) and call.args[0].attr == "INTERNAL_SERVER_ERROR"
+
+    def is_call(self, fi: FunctionInfo, call: ast.Call, kind: str, depth: int = 0) -> bool:
+        if self.primitive(call, kind):
+            return True
+        if depth > 3 or last_attr(call) in ("get", "set", "append", "debug", "isEnabledFor", "seek", "tell", "write", "read"):
+            return False
+        tg = self.ctx.res.resolve(fi, call, heuristic=False)
+        return bool(tg) and all(self.must(t, kind, depth + 1) for t in tg)
+
+    def must(self, fi: FunctionInfo, kind: str, depth: int = 0) -> bool:
+        key = (fi.fq, kind)
+        if key in self.memo:
+            return self.memo[key]
+        self.memo[key] = False  # recursion guard
+        cfg = cfg_of(fi.node)
+        marks = [c for c in calls(fi) if self.is_call(fi, c, kind, depth)]
+        ok = bool(marks) and cfg.exit not in cfg.reach({cfg.entry}, set().union(*[cfg.done(m) for m in marks]))
+        self.memo[key] = ok
+        return ok
+
+    def calls_of(self, fi: FunctionInfo, kind: str) -> list[ast.Call]:
+        return [c for c in calls(fi) if self.is_call(fi, c, kind)]
+
+
 def _marker_iff_error(ctx: Ctx) -> None:
-    """Error batch in the body <=> 500 signal, per function that writes in-band error batches."""
+    """Error batch in the body <=> 500 signal, per function that writes in-band error batches (directly or through a helper
+    that certainly writes one)."""
+    fx = _Effects(ctx)
     # ---- unary: the signal is the returned status
     fu = ctx.fn(HTTP_UNARY)
     cfg = cfg_of(fu.node)
@@ -480,7 +519,7 @@ def _marker_iff_error(ctx: Ctx) -> None:
     sv = next(iter(svars))
     a500 = [n for n in walk_scope(fu.node) if any(isinstance(t, ast.Name) and t.id == sv for t in assign_parts(n)[0]) and isinstance(assign_parts(n)[1], ast.Attribute) and assign_parts(n)[1].attr == "INTERNAL_SERVER_ERROR"]  # type: ignore[union-attr]
     aother = [n for n in walk_scope(fu.node) if any(isinstance(t, ast.Name) and t.id == sv for t in assign_parts(n)[0]) and n not in a500]
-    W = calls_named(fu, "_write_error_batch")
+    W = fx.calls_of(fu, "write")
     some(W, "in-band error batch writes in _run_unary_sync", fu)
     var_rets = [r for r in rets if isinstance(r.value.elts[1], ast.Name)]  # type: ignore[union-attr]
     lit_rets = [r for r in rets if r not in var_rets]
@@ -510,18 +549,21 @@ def _marker_iff_error(ctx: Ctx) -> None:
     mod = ctx.repo.module(APPS)
     n_fn = 0
     for f in mod.functions.values():
-        Ws = calls_named(f, "_write_error_batch")
-        if not Ws or f.parent is not None:
+        if f.parent is not None:
+            continue
+        Ws = fx.calls_of(f, "write")
+        if not Ws:
             continue
         n_fn += 1
         ctx.touch(f)
         c = cfg_of(f.node)
-        S = [x for x in calls(f) if last_attr(x) == "set" and "_current_response_status" in txt(x.func) and x.args and isinstance(x.args[0], ast.Attribute) and x.args[0].attr == "INTERNAL_SERVER_ERROR"]
+        S = fx.calls_of(f, "signal")
         sd = set().union(*[c.done(x) for x in S]) if S else set()
         watt = set().union(*[c.attempt(w) for w in Ws])
         for w in Ws:
             pre = c.reach({c.entry}, sd)
-            unsig = bool(pre & c.attempt(w)) and (c.exit in c.reach(c.done(w), sd, include_start=False))
+            # a helper that both writes the batch and raises the signal (``_exchange_error_response``) is self-contained
+            unsig = not any(w is x for x in S) and bool(pre & c.attempt(w)) and (c.exit in c.reach(c.done(w), sd, include_start=False))
             ctx.check(not unsig, "RF-DOM", f"error-batch-implies-500:{f.name}:{_err_arg(w)}", f, w, ok="every path through this in-band error batch sets the response status to INTERNAL_SERVER_ERROR",
                       bad="an in-band error batch can be written without signalling INTERNAL_SERVER_ERROR: the response is an unmarked 200 although it carries an error")
         s0 = c.reach({c.entry}, watt) & sd
@@ -573,7 +615,10 @@ def _http_error_mapping(ctx: Ctx, f: FunctionInfo) -> None:
 
 
 def _err_arg(w: ast.Call) -> str:
-    return txt(w.args[2]) if len(w.args) > 2 else "exc"
+    if last_attr(w) == "_write_error_batch":
+        return txt(w.args[2]) if len(w.args) > 2 else "exc"
+    names = [txt(a) for a in [*w.args, *[k.value for k in w.keywords]] if isinstance(a, ast.Name)]
+    return f"{last_attr(w)}({names[0] if names else ''})"
 
 
 def _status_table(ctx: Ctx) -> None:
